@@ -10,6 +10,7 @@ import Tahoe.Immutable.IntegrityBytes
   `dlseq <asis|fixed> <uebhash-hex> <k> <n> <size> <guess> <shnum:share-hex,…>`
         the same read when every `get_segment` is offered all the listed shares (several servers, in order)
         → as `dl`
+  `gotseg <offset> <size> <segment_start> <segment_len>` → `<index in segment> <length>` | `wrong`  (`_got_segment`)
   `sat <asis|fixed> <uebhash-hex> <k> <n> <size> <shnum> <segnum> <share-hex>`
         one pass of `_get_satisfaction` on a fresh node → `block` | `corrupt` | `dead:<why>` | `badsegnum` | `wait` -/
 open Tahoe.Drv Tahoe.Integrity Tahoe.IntegrityBytes Tahoe.Base.Merkle
@@ -67,6 +68,16 @@ def handle : List String → String
       let r := read realEnv cfg pick0 dec cap guess scripts (Node.init B cap) 0 size
       s!"len={r.1.length} end={showEnd r.2} data={hexOfBytes r.1}"
     | _, _, _, _, _, _, _ => "bad-op"
+  | ["gotseg", off, size, start, len] =>
+    -- `Segmentation._got_segment`: which slice of the handed segment is written (`<first index> <length>`), or `wrong`
+    match off.toNat?, size.toNat?, start.toNat?, len.toNat? with
+    | some off, some size, some start, some len =>
+      -- the segment's bytes are their own indices (mod 256 would lose information: use the slice arithmetic)
+      let seg : B := List.replicate len 0
+      match gotSegment off size start seg with
+      | none => "wrong"
+      | some d => s!"{off - start} {d.length}"
+    | _, _, _, _ => "bad-op"
   | ["sat", mode, uh, k, n, size, shnum, segnum, shx] =>
     match cfgOf mode, bytesOfHex uh, k.toNat?, n.toNat?, size.toNat?, shnum.toNat?, segnum.toNat?, bytesOfHex shx with
     | some cfg, some uh, some k, some n, some size, some shnum, some segnum, some sh =>
